@@ -577,6 +577,8 @@ def gen_dump_op(r, reent_ok=True):
         n = 1 if api == 'dump' else r.randint(1, 4)
         op['vals'] = [r.choice(names) for _ in range(n)]
         op['opts'] = r.choice(sorted(OPTS))
+        if op['to'] == 'shared' and r.random() < 0.4:
+            op['opts'] = 'utf16'         # an encoding with a byte order mark: written once per stream? per call?
         if op['opts'] == 'unsorted':
             # the iteration order of a set depends on the hash seed: not a deterministic observation
             op['vals'] = ['plain' if v == 'set' else v for v in op['vals']]
@@ -630,6 +632,10 @@ def gen_gen_op(r):
         docs = related_docs(r, r.randint(2, 5))
     if r.random() < 0.15:
         docs.insert(r.randrange(2), 'bigmb')
+    if r.random() < 0.2:
+        # multi-byte text through a binary stream in pieces that split sequences
+        return {'api': api, 'cls': r.choice(LOADERS), 'docs': [r.choice(['cyrillic', 'cjk', 'unicode']) for _ in range(r.randint(2, 4))],
+                'terminate': True, 'form': 'bstream', 'chunk': r.choice([2, 3, 5, 7, 16])}
     return {'api': api, 'cls': r.choice(LOADERS), 'docs': docs, 'terminate': True, 'form': r.choice(['bstream', 'tstream']),
             'chunk': r.choice([1, 2, 5, 16, 64, None])}
 
